@@ -22,9 +22,9 @@ PLAN = {"quick": {"shards": 16, "cases": 320, "timeout": 900}, "thorough": {"sha
 _CLS = ("IterationFilter", "IterationIndexFilter", "RankFilter", "TimeRangeFilter", "NameFilter", "GPUKernelFilter", "CPUOperatorFilter",
         "CompositeFilter", "MemCopyEventFilter")
 FLOORS = {"quick": dict({"distinct_nontrivial": 100, "applications": 4000, "proper_subset_results": 1500, "decoded_name_filters": 150,
-                         "time_range_boundary_hits": 50, "laws_checked": 1000}, **{f"purity[{c}].post": 100 for c in _CLS}),
+                         "time_range_boundary_hits": 50, "laws_checked": 1000, "frames_with_repeated_index_labels": 200}, **{f"purity[{c}].post": 100 for c in _CLS}),
           "thorough": dict({"distinct_nontrivial": 2500, "applications": 100000, "proper_subset_results": 35000, "decoded_name_filters": 3500,
-                            "time_range_boundary_hits": 1200, "laws_checked": 25000}, **{f"purity[{c}].post": 2500 for c in _CLS})}
+                            "time_range_boundary_hits": 1200, "laws_checked": 25000, "frames_with_repeated_index_labels": 3000}, **{f"purity[{c}].post": 2500 for c in _CLS})}
 N_APPS = 36
 
 
@@ -148,7 +148,7 @@ def rows_of(df) -> List[Dict[str, Any]]:  # noqa: ANN001
     labels = df.index.tolist()
     for i, lab in enumerate(labels):
         r = {c: data[c][i] for c in cols}
-        r["_label"] = lab
+        r["_label"] = r.get("_uid", lab)
         out.append(r)
     return out
 
@@ -216,7 +216,7 @@ def run_case(case: Dict[str, Any], ctx: Any) -> core.CaseResult:
         for app in range(N_APPS):
             r = rnd.choice(ranks)
             base = t.get_trace(r)
-            kind = rnd.choice(["encoded", "encoded", "decoded_cols", "decoded_inplace", "rank_col", "no_iteration", "empty"])
+            kind = rnd.choice(["encoded", "encoded", "decoded_cols", "decoded_inplace", "rank_col", "rank_col_dup_index", "no_iteration", "empty"])
             if kind == "encoded":
                 df = base.copy()
             elif kind == "decoded_cols":
@@ -225,13 +225,16 @@ def run_case(case: Dict[str, Any], ctx: Any) -> core.CaseResult:
             elif kind == "decoded_inplace":
                 df = base.copy()
                 st.decode_df(df, create_new_columns=False)
-            elif kind == "rank_col":
+            elif kind in ("rank_col", "rank_col_dup_index"):
                 parts = []
                 for rr in ranks:
                     x = t.get_trace(rr).copy()
                     x["rank"] = rr
                     parts.append(x)
-                df = pd.concat(parts, ignore_index=True)
+                # the natural multi-rank frame keeps each rank's event ids as labels (repeated across ranks)
+                df = pd.concat(parts, ignore_index=(kind == "rank_col"))
+                if kind == "rank_col_dup_index" and not df.index.is_unique:
+                    res.counters["frames_with_repeated_index_labels"] += 1
                 if rnd.random() < 0.5:
                     st.decode_df(df, create_new_columns=True)
             elif kind == "no_iteration":
@@ -246,7 +249,8 @@ def run_case(case: Dict[str, Any], ctx: Any) -> core.CaseResult:
                     name_col = c
                     break
             sym = st.get_sym_table()
-            info = {"kind": kind if kind not in ("no_iteration", "empty") else "encoded", "string_name_col": name_col, "n_ranks": len(ranks),
+            df["_uid"] = range(len(df))          # harness row identity (filters ignore unknown columns); labels may repeat
+            info = {"kind": {"no_iteration": "encoded", "empty": "encoded", "rank_col_dup_index": "rank_col"}.get(kind, kind), "string_name_col": name_col, "n_ranks": len(ranks),
                     "iterations": sorted({int(x) for x in df["iteration"].tolist() if x >= 0}) if "iteration" in df.columns else [],
                     "starts": [int(x) for x in df["ts"].tolist()] or [0], "ends": [int(a + b) for a, b in zip(df["ts"].tolist(), df["dur"].tolist())] or [0],
                     "names": sorted({sym[x] if isinstance(x, int) else x for x in df["name"].tolist()}) or ["x"],
@@ -281,7 +285,7 @@ def run_case(case: Dict[str, Any], ctx: Any) -> core.CaseResult:
             msg = purity.check_selection(snap, out)
             if msg:
                 res.bad("sub-frame", f"{tag}: {msg}")
-            got_labels = out.index.tolist() if len(out) else []
+            got_labels = (out["_uid"].tolist() if "_uid" in out.columns else out.index.tolist()) if len(out) else []
             if got_labels != exp_labels:
                 extra = [x for x in got_labels if x not in set(exp_labels)][:4]
                 miss = [x for x in exp_labels if x not in set(got_labels)][:4]
@@ -303,12 +307,12 @@ def run_case(case: Dict[str, Any], ctx: Any) -> core.CaseResult:
                     okl, cur = drv.guard(res, "filter (reversed order)", b[0], cur, st if need_st else None)
                     if not okl:
                         break
-                if okl and (cur.index.tolist() if len(cur) else []) != got_labels:
+                if okl and ((cur["_uid"].tolist() if "_uid" in cur.columns else cur.index.tolist()) if len(cur) else []) != got_labels:
                     res.bad("order-independent", f"{tag}: applying the row-local members in reverse order selects different rows")
             if n_f == 1 and built[0][3]:
                 res.counters["laws_checked"] += 1
                 ok2, again = drv.guard(res, "filter (second application)", flt, out, st if need_st else None)
-                if ok2 and len(out) and (again.index.tolist() if len(again) else []) != got_labels:
+                if ok2 and len(out) and ((again["_uid"].tolist() if "_uid" in again.columns else again.index.tolist()) if len(again) else []) != got_labels:
                     res.bad("idempotent", f"{tag}: applying the filter twice differs from applying it once")
         res.nontrivial = nontrivial_keys > 0
         res.counters["nontrivial_applications"] += nontrivial_keys
